@@ -1,5 +1,5 @@
 """C17 — printed text depends only on graph structure and printer options (DESIGN.md §4 C17)."""
-import random, re, threading
+import os, random, re, threading
 from concurrent.futures import ThreadPoolExecutor
 from . import common as C
 from . import printer_common as P
@@ -97,6 +97,31 @@ def run(tier):
     scripts = [script(i) for i in range(len(progs))]
     index = {id(p): i for i, p in enumerate(progs)}
     shrink = make_shrinker(progs, lambda p, keep: script(index[id(p)], keep), names, probe)
+
+    # the same printing during static initialisation of a client translation unit (before the library's own initialisers) and in main()
+    n_early = 0
+    for k, p in enumerate(sorted(progs, key=lambda p: -len(p.kinds))[:6 if tier == 'quick' else 40]):
+        early_path = os.path.join(C.CACHE, 'c17-early-%d-%d.txt' % (os.getpid(), k))
+        with open(early_path, 'w') as f:
+            f.write('\n'.join(p.history_a('E')) + '\n')
+            for root, route in p.roots:
+                f.write('root %s %s\n' % (root, route))
+        rc_e, out_e, err_e = C.run_exe(probe, ['early'], '', env=dict(os.environ, PRINTPROBE_EARLY=early_path))
+        script_text = open(early_path).read()
+        os.unlink(early_path)
+        early_lines = [l for l in out_e.splitlines() if l.startswith('early ')]
+        early_bad = [l for l in early_lines if l.endswith('same=0')]
+        n_early += max(0, len(early_lines) - 1)
+        if rc_e != 0 or not early_lines or 'failure' in early_lines[0]:
+            res.violation('static-init:crash', 'printing a program during the static initialisation of a client translation unit (linked before the library) '
+                          'failed (exit %d): %s\n%s' % (rc_e, out_e[:300], err_e[-1500:]), '# static-init printing (PRINTPROBE_EARLY script)\n' + script_text)
+            break
+        if early_bad:
+            res.violation('static-init:text', 'a program printed during the static initialisation of a client translation unit and printed again from main() with a '
+                          'fresh printer gives two different texts: %s\n%s' % (early_bad[0], '\n'.join(l for l in out_e.splitlines() if l.startswith(('early-then', 'early-now')))[:600]),
+                          '# static-init printing (PRINTPROBE_EARLY script)\n' + script_text)
+            break
+    res.cov['prints_during_static_initialisation_compared_with_main'] = n_early
 
     nchunks = TIERS[tier][2]
     bounds = [round(k * len(scripts) / nchunks) for k in range(nchunks + 1)]
